@@ -359,6 +359,12 @@ impl<'tcx> Cx<'tcx> {
                 parts.push(format!("\"l\":{}", did.is_local()));
             }
             _ => {
+                // const generic parameter: record its name so a caller's generic args can bind it
+                if let Const::Ty(_, ct) = c.const_ {
+                    if let ty::ConstKind::Param(p) = ct.kind() {
+                        parts.push(format!("\"param\":{}", jstr(p.name.as_str())));
+                    }
+                }
                 // name of the constant item if unevaluated
                 if let Const::Unevaluated(uv, _) = c.const_ {
                     parts.push(format!("\"item\":{}", jstr(&path_of(tcx, uv.def))));
@@ -707,6 +713,15 @@ fn dump(tcx: TyCtxt<'_>, out_dir: &str) {
                     .collect();
                 parts.push(format!("\"tfe\":{}", jlist(&tfe)));
                 parts.push(format!("\"nargs\":{}", body.arg_count));
+                {
+                    let generics = tcx.generics_of(did);
+                    let mut names: Vec<String> = Vec::new();
+                    for i in 0..generics.count() {
+                        let p = generics.param_at(i, tcx);
+                        names.push(jstr(p.name.as_str()));
+                    }
+                    parts.push(format!("\"gen\":{}", jlist(&names)));
+                }
                 let locals: Vec<String> = body.local_decls.iter().map(|d| jstr(&ty_str(d.ty))).collect();
                 parts.push(format!("\"locals\":{}", jlist(&locals)));
                 let mut names: Vec<String> = Vec::new();
